@@ -6,43 +6,43 @@ ALL = ['C%02d' % i for i in range(1, 21)]
 CHECKS = {
  # id: (technique, level text, level note, design ref)
  'C01': ('bounded-exhaustive enumeration + proptest generators + call-counting work-bound oracle, process-level abort/hang observation',
-         'Every string of length <= 4 (quick) / <= 5 and <= 6 on a core alphabet (thorough) over the YAML indicator alphabet, plus seeded token soups, line soups, mutated test-suite documents and scaling families, each parsed 14 ways (6 input back-ends, peek/next, load, 4 loaders) behind a call-counting Input wrapper; no panic, no abort, calls <= 64*(chars+1)+64.',
+         'Every string of length <= 4 (quick) / <= 5 and <= 6 on a core alphabet (thorough) over the YAML indicator alphabet, plus seeded token soups, line soups, mutated test-suite documents and scaling families, each parsed 14 ways (6 input back-ends, peek/next, load followed by further pulls, 4 loaders) behind a call-counting Input wrapper; no panic, no abort, calls <= 64*(chars+1)+64. Inputs include NUL and other special characters, tabs for blanks, CR / CRLF versions and documents nested 200..600 levels deep.',
          'Linear bound is a calibrated constant; absence of panics beyond the explored scopes is not established; rustc/std, proptest trusted.', '5 C01'),
  'C02': ('bounded-exhaustive enumeration + proptest generators against an independent pushdown recogniser of the event grammar',
-         'Same input spaces as C01; pull and push event streams on two back-ends must be a prefix (or, without error, a whole sentence) of the YAML event grammar with the anchor/alias id rules.',
+         'Same input spaces as C01; the event streams of the iterator, of the iterator with a peek before every next, of load(multi=true) and of repeated load(multi=false) on two back-ends must be a prefix (or, without error, a whole sentence) of the YAML event grammar with the anchor/alias id rules.',
          'Grammar only; the recogniser (harness/src/oracle/grammar.rs) is trusted.', '5 C02'),
  'C03': ('model-based generation: abstract node trees rendered by an independent spec-derived renderer under generated layout choices; expected events are a function of the tree; plus the test-suite corpus with layout-preserving metamorphic variants',
-         '1.5*10^5 (quick) / 3*10^6 (thorough) rendered streams covering every construct and layout choice the property lists (class histogram in the evidence, each >= 1 %), compared event by event (kind, text, style, anchor link, tag, explicit start) on two back-ends; 308 non-error suite cases x 4 variants against their tree: expectation.',
+         '1.5*10^5 (quick) / 3*10^6 (thorough) rendered streams covering every construct and layout choice the property lists, incl. tabs after document markers and line breaks between properties and content in flow collections (class histogram in the evidence), compared event by event (kind, text, style, anchor link, tag, explicit start) on two back-ends; 308 non-error suite cases x 4 variants against their tree: expectation.',
          'The renderer (harness/src/model.rs, written from the YAML 1.2.2 productions) is trusted to emit only well-formed streams; simple scalar mode here, tricky scalars are C04 / C05.', '5 C03'),
  'C04': ('model-based generation of presentation programs (atoms + separators) whose YAML text and denoted value are both read off the program; contexts x back-ends; plus an exhaustive escape / two-atom scope',
-         '2*10^5 (quick) / 4*10^6 (thorough) programs over plain / single / double style with every escape form, doubled quotes, interior blanks, folds of 1..3 breaks with blank and tab padding, escaped breaks, indicator and non-ASCII characters, in 10 syntactic contexts on StrInput, BufferedInput and TestInput<8>; the whole event list (value, style) is asserted.',
+         '2*10^5 (quick) / 4*10^6 (thorough) programs over plain / single / double style with every escape form, doubled quotes, interior blanks, folds of 1..3 breaks with blank and tab padding, escaped breaks, indicator and non-ASCII characters, in 10 syntactic contexts (block and root contexts also with the scalar as the last thing of the input) on StrInput, BufferedInput and TestInput<8>, multi-line programs also with CR LF and lone CR breaks; the whole event list (value, style) is asserted.',
          'The sanitiser keeps programs inside the style productions by construction; texts are those expressible in the chosen style.', '5 C04'),
  'C05': ('model-based generation of block scalar cases with a value function written from YAML 1.2.2 8.1; bounded-exhaustive line lists + proptest cases; contexts x back-ends',
-         'Every line list of <= 4 (quick) / <= 5 (thorough) lines over 6 line shapes x style x chomping x 4 contexts x 4 end shapes exhaustively, plus 10^5 / 2*10^6 generated cases (30 line texts, empty lines with spaces, explicit indicators, header comments, content indentation up to n+12, parents at indentation 14 and 126, sibling or three end-of-input shapes) on StrInput, BufferedInput, TestInput<8>, TestInput<128>; the whole event list is asserted.',
+         'Every line list of <= 4 (quick) / <= 5 (thorough) lines over 6 line shapes x style x chomping x 4 contexts x 4 end shapes exhaustively, plus 10^5 / 2*10^6 generated cases (30 line texts, empty lines with spaces, explicit indicators, header comments, content indentation up to n+12, parents at indentation 14 and 126, sibling or three end-of-input shapes) on StrInput, BufferedInput, TestInput<8>, TestInput<128>, and again with CR LF breaks, lone CR breaks and a tab after each document marker; the whole event list is asserted.',
          'I10 (no document-marker lines at indentation 0), I17 (keep with an unterminated blank last line is not value-asserted), no explicit indicator on top-level scalars.', '5 C05'),
  'C06': ('fault injection: one grammar-derived damage operator applied at a renderer-recorded site of a generated well-formed stream; oracle = the parser must return an error',
          '1.5*10^5 (quick) / 4.5*10^6 (thorough) damaged streams over 15 damage operators (each the listed kind of ill-formedness, constructed so the result is ill-formed whatever the surroundings), operator chosen among those applicable to the stream; plus the 94 error cases of the test suite; StrInput and BufferedInput.',
-         'The undamaged stream must be accepted (differential precondition, C03 judges it); two accepted sub-classes are open known findings (F15, F25).', '5 C06'),
+         'The undamaged stream must be accepted (differential precondition, C03 judges it); two accepted sub-classes are open known findings, each keyed on its cause (F15: a plain scalar scanned inside the flow collection before the offending line; F25: tab at column 0 under a parent at indentation <= 0).', '5 C06'),
  'C07': ('model-based: independent reference loader (fold of the event list) compared with the four loaders over bounded-exhaustive and proptest inputs',
          'Every accepted input of the text spaces (and rendered documents) is folded from its push-interface events by a reference loader and compared document by document with Yaml, YamlOwned, MarkedYaml and MarkedYamlOwned loads; load fails iff the parser fails, same error.',
-         'Scalars are resolved by the library resolver inside the reference fold (the resolver itself is C08); duplicated key position first-or-last (I3).', '5 C07'),
+         'Untagged non-plain scalars are strings by rule; plain and tagged scalars are resolved by the library resolver inside the reference fold (the resolver itself is C08); duplicated key position first-or-last (I3).', '5 C07'),
  'C08': ('bounded-exhaustive enumeration over the literal alphabet + proptest templates against a hand-written core-schema matcher (must/may outcomes)',
          'Every string of length <= 4 (quick) / <= 5 (thorough) over the 36 characters that occur in core-schema literals x 16 (style, tag) pairs through the resolver API, every string of length <= 3 / <= 4 x 12 pairs through load_from_str of a rendered document, plus boundary-number and word templates; borrowed vs owned resolvers compared.',
          'f64::from_str is trusted for the value of an accepted float literal; "within 64 bits" read as fits-i64 (I2).', '5 C08'),
  'C09': ('round-trip oracle (load . emit = id, emit . load . emit = emit) over bounded-exhaustive strings in four positions and proptest prop_recursive value trees',
-         'Every string of length <= 3 (quick) / <= 4 (thorough) over a 30-symbol alphabet as root, sequence item, mapping key and mapping value under the 4 emitter settings, plus 10^5 / 2*10^6 generated value trees (boundary numbers, special floats, Unicode and control characters, >1024-char keys, collection keys, depth <= 5).',
+         'Every string of length <= 3 (quick) / <= 4 (thorough) over a 30-symbol alphabet as root, sequence item, mapping key and mapping value under the 4 emitter settings, plus 10^5 / 2*10^6 generated value trees (boundary numbers, special floats, Unicode and control characters, >1024-char keys, collection keys, depth <= 5), plus single- and multi-line strings under 0..24 wrapping collections.',
          'Domain excludes BadValue / Alias / Representation nodes (I9); equality is the library == plus variant equality.', '5 C09'),
  'C10': ('differential testing across six Input back-ends over bounded-exhaustive and proptest-generated inputs',
          'C01 spaces + exhaustive scope with CR / multi-byte characters + block scalars under indentation 0..140: (event, span) lists and first error identical on StrInput, BufferedInput and TestInput<8,16,64,128>.',
          'TestInput replicates BufferedInput semantics with another capacity (>= 8); differential only (paired with the model-based checks).', '5 C10'),
  'C11': ('generated nesting scenarios (shape x API x depth) each executed in its own child process with an 8 MiB stack; exit status is the oracle',
-         '8 nesting shapes + random opener mixes x 7 APIs (iterator, Parser::load, load_from_str + forget / drop, MarkedYamlOwned + drop, built tree + drop, built tree + emit) x depths 1..3*10^4 (quick) / 10^5 (thorough); a child killed by a signal is a violation, with the smallest crashing depth bisected.',
+         '2 build profiles (optimised harness build, unoptimised /verif/nestchild) x 9 nesting shapes + random opener mixes x 8 APIs (iterator, Parser::load, load_from_str + forget / drop, MarkedYamlOwned + drop, built tree + drop, built tree + emit with default settings and with multiline_strings) x depths 1..10^5 (quick) / 3*10^5 (thorough); a child killed by a signal is a violation (smallest crashing depth bisected), a child that panics or does not finish within 120 s too.',
          'Quadratic scenarios are depth-capped (stated in the rule); the 8 MiB stack is the Linux main-thread default.', '5 C11'),
  'C12': ('bounded-exhaustive + proptest inputs against an independent line/column counter and source-lexing span oracles',
-         'Every span endpoint and error marker is recomputed from the input characters (LF, CR, CRLF); nesting/order invariants; one-line plain and quoted scalar extents; Display format; MarkedYaml(Owned) node spans vs creating events.',
+         'Every span endpoint and error marker is recomputed from the input characters (LF, CR, CRLF); nesting/order invariants; one-line plain and quoted scalar extents; Display format; MarkedYaml(Owned) node spans vs creating events, for eagerly loaded documents and for documents loaded with deferred resolution and then resolved.',
          'Synthesised null scalars and positions at end of input are exempt as stated in DESIGN.md §7 I5/I6; block scalar extent not asserted.', '5 C12'),
  'C13': ('generated JSON values x choice-stream-driven serialiser (whitespace, escapes) compared with the generating value',
-         '2*10^5 (quick) / 4*10^6 (thorough) JSON values (hostile strings as keys and values, boundary numbers, depth <= 8, chains to depth 200) serialised compact, pretty or with random space/tab/LF/CRLF runs around every token; load_from_str must return the generating value.',
+         '2*10^5 (quick) / 4*10^6 (thorough) JSON values (hostile strings as keys and values, boundary numbers, depth <= 8, chains to depth 200) serialised compact, pretty or with random space/tab/LF/CRLF runs around every token; load_from_str, load_from_parser over the string-slice back-end and the deferred loading mode must each return the generating value.',
          'The generator and serialiser are the JSON reference; numbers compared by exact value (I8).', '5 C13'),
  'C14': ('metamorphic relation (LF -> CRLF / CR) over bounded-exhaustive and proptest inputs',
          'Every CR-free generated input is re-parsed with CRLF and with lone CR: same events, scalar values, line/col, outcome and error text.',
@@ -54,7 +54,7 @@ CHECKS = {
          '10^5 (quick) / 2*10^6 (thorough) scenarios: 1..3 documents x 0..3 %TAG lines (5 handles x 5 prefixes) x %YAML position x reserved directive x every tag spelling on scalars, empty nodes, block and flow collections x keep_tags; expected either an error (duplicate / undeclared handle) or the exact handle+suffix of every node.',
          'Resolver written from the property statement; escapes only in suffixes; with keep_tags later documents do not re-declare earlier handles (I7).', '5 C16'),
  'C17': ('model-based call-history testing (peek/next interpreter) with exhaustive histories on small streams + differential pull vs push',
-         'Cursor model over the plain-iteration event list; all 3^n peek histories for streams <= 8 events and all <= 3-position histories for 9..12 events on small inputs and the corpus, sampled histories elsewhere; load(multi) and repeated load(single) must replay the same (event, span, error) story.',
+         'Cursor model over the plain-iteration event list; all 3^n peek histories for streams <= 8 events and all <= 3-position histories for 9..12 events on small inputs and the corpus, sampled histories elsewhere; load(multi) and repeated load(single) must replay the same (event, span, error) story, with keep_tags off and (for inputs with directives) on.',
          'Histories stop at the first error (I4).', '5 C17'),
  'C18': ('round-trip differential (std encoders -> YamlDecoder vs load_from_str) on generated texts + bounded-exhaustive byte strings x trap modes, termination observed by a process watchdog',
          'Texts (ASCII/Latin/CJK/astral, up to ~4k chars) x 6 encodings x 6 trap modes must decode to the documents of load_from_str; every byte string of length <= 5 (quick) / <= 6 (thorough) over 10 byte values x 6 trap modes plus random / truncated / bit-flipped encodings must return, with strict => decode error on malformed input, lenient traps continuing, callbacks honoured.',
@@ -63,7 +63,7 @@ CHECKS = {
          'For every accepted input: the four load_from_str results agree structurally; MarkedYaml(Owned) ==/Hash/map-lookup are invariant under replacing every span and under shifting the document by a comment line; early_parse(false) + parse_representation_recursive equals the eager load on all four types with the documented return value; resolving resolved trees is the identity.',
          'Differential by design, paired with C07 (reference loader) and C08 (resolver oracle).', '5 C19'),
  'C20': ('model-based testing of six lookup paths against a reference predicate on generated mappings, plus eq => hash-eq over generated respelling pairs',
-         'Generated mappings with string, numeric, null, boolean, collection, unresolved and BadValue keys in five node spellings (Yaml with borrowed / owned Cow, YamlOwned, MarkedYaml, MarkedYamlOwned): as_mapping_get, contains_mapping_key, Index (panic iff absent), as_mapping_get_mut, IndexMut and explicit get agree with found(k) = some key is a resolved string equal to k; usize indexing vs get; equal nodes hash equally and find each other in a map.',
+         'Generated mappings with string, numeric, null, boolean, collection, unresolved and BadValue keys in five node spellings (Yaml with borrowed Cow whose strings are slices of shared buffers / owned Cow, YamlOwned, MarkedYaml, MarkedYamlOwned): as_mapping_get, contains_mapping_key, Index (panic iff absent), as_mapping_get_mut, IndexMut and explicit get agree with found(k) = some key is a resolved string equal to k; usize indexing vs get; equal nodes hash equally and find each other in a map.',
          'Model predicate written from the property statement; panics observed with catch_unwind.', '5 C20'),
 }
 def main():
@@ -89,10 +89,10 @@ def main():
         'hooks': {'guard': 'saphyr_verif', 'enable': 'none needed: every observation goes through public API (DESIGN.md §2.2); no hook commits exist',
                   'baseline_off_cmd': 'cd /repo && cargo test --workspace --no-fail-fast --offline', 'source_commits': [], 'add_only': True},
         'engines': [{'name': 'verif-harness', 'path': '/verif/harness', 'serves_properties': sorted(CHECKS),
-                     'kind_free_text': 'Rust binary: proptest 1.11 TestRunner streams + bounded exhaustive enumerators + child-process scenarios; 16 worker processes; known_findings.json filter; replay files'}],
+                     'kind_free_text': 'Rust binary: proptest 1.11 TestRunner streams + bounded exhaustive enumerators + child-process scenarios; 16 worker processes; known_findings.json filter; replay files; cargo-fuzz / libFuzzer target (fuzz/) for the thorough tier'}],
         'checks': checks,
         'not_applicable': na,
-        'notes': 'bin/check <ID> <tier> rebuilds the harness against /repo (path dependencies) and runs the property. Exit 2 = inconclusive (build failure / watchdog), never a violation.',
+        'notes': 'bin/check <ID> <tier> rebuilds the harness against /repo (path dependencies) and runs the property; the thorough tier adds a coverage-guided libFuzzer campaign (fuzz/, one target, the property oracle inside the target, 16 jobs) for every property except C11, whose oracle is a child process exit status. Exit 2 = inconclusive (build failure / watchdog / a fuzz campaign in which no job completed), never a violation.',
     }
     json.dump(m, open(os.path.join(ROOT, 'MANIFEST.json'), 'w'), indent=1)
     print('wrote MANIFEST.json with', len(checks), 'checks')
